@@ -11,7 +11,7 @@ use oracle::tables;
 use serde_json::json;
 
 pub const ID: &str = "C09";
-pub const FAMS: [&str; 9] = ["byte-at-position", "class-pattern", "two-bytes", "planted-foreign", "single-class-long", "three-bytes", "real-world-prefixes", "token-strings", "edit-session"];
+pub const FAMS: [&str; 10] = ["byte-at-position", "class-pattern", "two-bytes", "planted-foreign", "single-class-long", "three-bytes", "real-world-prefixes", "token-strings", "edit-session", "unicode-lookalikes"];
 
 const BG: [&[u8]; 3] = [b"0123456789", b"AZ $%*+-./:K7", b"az,!\x00\x7f\x80\xff@[`{"];
 const REPS: [[u8; 2]; 3] = [[b'0', b'9'], [b'A', b':'], [b'a', 0xE9]];
@@ -74,6 +74,22 @@ pub fn jobs(ctx: &Ctx) -> Vec<Job> {
             k += 1;
             let len = 1 + (mix(ctx.seed, k) as usize) % if i % 8 == 0 { 600 } else { 60 };
             jobs.push(Job { fam: FAMS[7], class, len, gen: crate::job::GEN_TOKENS, seed: mix(ctx.seed, k), level: Some((k % 4) as usize), mask: Some((k % 8) as usize), ..Default::default() });
+        }
+    }
+    // non-ASCII look-alikes of digits / letters / blanks (digits of other scripts, fullwidth forms, fractions, NBSP):
+    // alone, repeated, and mixed with ASCII digits and alphanumerics. To a QR encoder they are bytes >= 0x80: Byte mode.
+    for (i, u) in crate::job::UNICODE_LOOKALIKES.iter().enumerate() {
+        for variant in 0..6usize {
+            k += 1;
+            let s: String = match variant {
+                0 => u.to_string(),
+                1 => u.repeat(1 + i % 9),
+                2 => format!("12345678{u}"),
+                3 => format!("{u}0123456789012345"),
+                4 => format!("ABC {u} 123"),
+                _ => format!("{u}{}", crate::job::UNICODE_LOOKALIKES[(i * 7 + 3) % crate::job::UNICODE_LOOKALIKES.len()]),
+            };
+            jobs.push(explicit(FAMS[9], s.into_bytes(), k, ctx));
         }
     }
     // edit sessions ("typing into a QR generator"): one text of the form digits + alphanumerics + other bytes is
